@@ -23,7 +23,7 @@ RULE = ('files of ~150-1500 bytes from vlib.model.gen_file (contiguous, interlea
 ASSUMPTIONS = ['marker variant: strings only in single-chunk last segments (as the statement restricts)',
                'expected status: explicit offsets -> incomplete iff data_start <= cut < end of a segment; marker -> iff the last '
                "segment's metadata is complete"]
-REQUIRED = ['long_files', 'cuts', 'cuts_in_raw_data', 'cuts_in_metadata', 'cuts_in_lead_in', 'status_checked', 'lazy_eager_compared', 'prefix_checked',
+REQUIRED = ['tall_files', 'long_files', 'cuts', 'cuts_in_raw_data', 'cuts_in_metadata', 'cuts_in_lead_in', 'status_checked', 'lazy_eager_compared', 'prefix_checked',
             'variant:explicit', 'variant:marker', 'cuts_checked']
 N = {'quick': 130, 'thorough': 4000}
 NDAQ = {'quick': 60, 'thorough': 2000}
@@ -36,6 +36,8 @@ def gen_cases(tier, seed):
         yield {'fam': 'daqmx', 's': seed * 1000003 + i, 'marker': False}
     for i in range(N[tier] // 10):
         yield {'fam': 'long', 's': seed * 1000003 + i, 'marker': False}
+    for i in range(N[tier] // 5):
+        yield {'fam': 'tall', 's': seed * 1000003 + i, 'marker': i % 3 == 2}
 
 
 def shard_setup(ctx):
@@ -55,7 +57,18 @@ def shard_teardown(ctx):
 
 
 def build(case):
-    rng = random.Random('c06/%d/%s' % (case['s'], case['marker']))
+    rng = random.Random('c06/%d/%s/%s' % (case['s'], case['marker'], case['fam']))
+    if case['fam'] == 'tall':
+        # many rows per chunk: the proportional arithmetic of the final chunk is exercised at every row boundary
+        nch = rng.randint(1, 3)
+        n = rng.randint(20, 60)
+        inter = rng.random() < 0.6
+        types = [rng.choice(['i8', 'i16', 'i32', 'f64', 'u16']) for _ in range(nch)]
+        chans = [('g', 'c%d' % i, types[i], n if inter else rng.choice([n, rng.randint(20, 60)]), []) for i in range(nch)]
+        segs = M.build_file(rng, chans, nseg=rng.randint(1, 2), nchunks=(rng.randint(1, 2),), inter=inter, endian=rng.choice('<>'),
+                            continuation=rng.choice(['same', 'none']))
+        blob, _, lay = M.encode_file(segs, marker_last=case['marker'])
+        return segs, blob, lay, rng
     while True:
         segs = M.gen_file(rng, max_segs=4, max_chans=4, lens=(0, 1, 2, 3, 5), chunks=(1, 2, 3), p_props=0.15, p_pad=0.1,
                           ts_safe=True)
@@ -113,6 +126,9 @@ def run_case(case, ctx):
                 'layout(start,data_start,end)': [(l['start'], l['data_start'], l['end']) for l in lay.segs]}, limit=2)
     last = lay.segs[-1]
     first_cut = 4 if case['fam'] != 'long' else lay.segs[-2]['start']      # long files: every offset of the last two segments
+    if case['fam'] == 'tall':
+        first_cut = lay.segs[-1]['data_start'] - 2
+        ctx.count('tall_files')
     for cut in range(first_cut, len(blob) + 1):
         ctx.count('cuts')
         ctx.evaluation()
